@@ -22,3 +22,4 @@ def run(ck):
     sampling.r13_weight_vector_tracks_position(ck, P)
     sampling.r14_float_bilinear_weights(ck, P)
     sampling.r15_mask_stride_follows_pipeline(ck, P)
+    sampling.r17_cursor_step_follows_pipeline(ck, P, 'C08-R16')
